@@ -8,6 +8,8 @@
 #define protected public
 #include "tools/src/libtools/tokenizer.cc"
 #include "tools/src/libtools/rangeparser.cc"
+#include <set>
+#include "xtp/src/libxtp/IndexParser.cc"
 #undef private
 #undef protected
 using namespace votca::tools;
@@ -34,6 +36,14 @@ H long h_range_rt(const char* text, long* out1, long* out2, long cap) {
   long n2 = 0;
   for (RangeParser::iterator i = rp2.begin(); i != rp2.end(); ++i) { if (n2 >= cap) return -4; out2[n2++] = *i; }
   return n1 * 1000 + n2;
+}
+// index strings ('1 3:5 9') -> sorted duplicate-free vector
+H long h_index_vec(const char* text, long* out, long cap) {
+  votca::xtp::IndexParser p; std::vector<votca::Index> v;
+  try { v = p.CreateIndexVector(text); } catch (...) { return -1; }
+  if ((long)v.size() > cap) return -2;
+  for (size_t i = 0; i < v.size(); i++) out[i] = v[i];
+  return (long)v.size();
 }
 #ifdef VERIF_NATIVE
 #include <cstdio>
